@@ -80,6 +80,7 @@ type c04Ghost struct {
 	codes      [][]uint32
 	callbacks  []int
 	overlap    bool
+	streams    []*vSrvStream
 }
 
 const (
@@ -135,6 +136,7 @@ func VerifC04(conns, reqs, allowNever, allowDisconnect int) {
 		}
 		streams[c] = st
 	}
+	g.streams = streams
 	srv.RegisterHandler("verif.Handler", func(ctx ServerCtx, in *Message, finished chan<- *Message) {
 		req := in.Message.(*vMsg)
 		defer ctx.Release()
@@ -279,7 +281,21 @@ func c04Impl(g *c04Ghost, ctx ServerCtx, req *vMsg) (*vMsg, error) {
 
 func (g *c04Ghost) done(c, k int) { g.finished[c][k] = true }
 
-func vHandlerDone(g *c04Ghost, c, j int) bool { return g.finished[c][j] }
+// vHandlerDone: the wrapper of handler j has handed its reply to the stream (handlers that
+// send no reply count as done when their implementation returned).
+func vHandlerDone(g *c04Ghost, c, j int) bool {
+	b := g.behaviour[c][j]
+	if b == c04NeverRelease || b == c04UnknownMethod {
+		return g.finished[c][j]
+	}
+	id := uint64(100*c + j + 1)
+	for _, m := range g.streams[c].sent {
+		if m.Metadata.MessageID == id {
+			return true
+		}
+	}
+	return false
+}
 
 func VerifC04Twin(conns, reqs, allowNever, allowDisconnect int) {
 	VerifC04(conns, reqs, allowNever, allowDisconnect)
